@@ -622,7 +622,7 @@ def run(out, tier, scratch):
         "CRS equality assertion of idx_bounds is not part of this model (property C01)",
     ]
     cases = gen_cases(out, tier)
-    fails, log = core.coq_eval_failures(["Base.Result", "Base.QMinMax", "Model.GridSpec", "Model.GridSpecCases"], "case", "check",
+    fails, log = core.coq_eval_failures(["Base.Result", "Base.QMinMax", "Base.ZRange", "Model.GridSpec", "Model.GridSpecCases"], "case", "check",
                                         cases, scratch, shard=300)
     detail = ""
     if fails:
